@@ -17,14 +17,19 @@ def plan(tier):
     conds = []
     for fc in range(3):
         conds.append(Cond("vf.h.h_disp", "h_elig", case=fc, timeout=600, env={"VF_ORACLE": "C12"}, label=f"H12-elig[fleetcfg={fc}]", weight=20))
+    conds.append(Cond("vf.h.h_disp", "h_elig", case=0, timeout=600, env={"VF_ORACLE": "C12", "VF_THRESH": "swap"}, label="H12-elig[fleetcfg=0,base threshold below matching threshold]", weight=20))
     conds += match_conds("h_match", "C12", tier, "H12-match")
+    for c in match_conds("h_match", "C12", tier, "H12-match-after-earlier-run", fcases=(0,) if tier == "quick" else (0, 3)):
+        c.env["VF_WARM"] = "1"
+        conds.append(c)
     return {
         "conds": conds,
         "min_classes": 100,
         "explanation": "C12: real Dispatcher.generate_instructions (with the real find_assignment / scipy linear_sum_assignment on a per-path concrete cost table). "
                        "H12-elig: one vehicle, one request: paired iff activity is dispatchable, driver on shift, remaining range above the matching threshold (and above the base threshold when "
                        "charging at a base), a shared fleet exists and the request has no vehicle assigned. H12-match: three vehicles x up to three requests: per fleet the pairs are within "
-                       "eligible x waiting, injective both ways, min(|E|,|R|) many and of minimum total h3 grid distance (brute force over all injective maps).",
+                       "eligible x waiting, injective both ways, min(|E|,|R|) many and of minimum total h3 grid distance (brute force over all injective maps). H12-match-after-earlier-run: the same after a Dispatcher run on an earlier state "
+                       "in which the same vehicles and requests stood elsewhere (nothing remembered per id may leak into the judged matching).",
         "entry_points": ["Dispatcher.generate_instructions", "assignment_ops.find_assignment", "assignment_ops.h3_distance_cost", "SimulationState.get_vehicles/get_requests"],
         "bounds": ["H12-elig: 7 activities x 3 driver kinds x energy in [0,50] kWh (symbolic vs. both range thresholds) x 5 vehicle memberships x 3 request memberships x assigned/free; fleets {}, {f1}, {f1,f2}",
                    "H12-match: 3 vehicles (cells v0 in {A,B,D,E}, v1 in {A,D}, v10 at B; each eligible or not), requests r0@C, r1 in {absent,C,D}, r2 in {absent,D,F}; value of r0 in 4..6 (sort order); "
